@@ -411,57 +411,63 @@ class Base:
         :return:            The serialized bytestring.
         """
 
-        serialized_args = b"".join(b"<" + Base._arg_serialize(a) + b">" for a in args)
-        serialized_annotations = b"".join(b"(" + Base._arg_serialize(a) + b")" for a in annotations)
+        serialized_args = Base._seq_serialize(args)
+        serialized_annotations = b"(" + Base._seq_serialize(annotations) + b")"
         serialized_length = b"" if length is None else length.to_bytes(8, "little", signed=False)
 
-        return b"{" + op.encode() + serialized_args + serialized_annotations + serialized_length + b"}"
+        return b"{" + op.encode() + b"\x00" + serialized_args + serialized_annotations + serialized_length + b"}"
+
+    @staticmethod
+    def _seq_serialize(seq) -> bytes:
+        """Serialize a sequence of arguments: every item with its length in front, so that no two sequences share a
+        serialization."""
+        items = [Base._arg_serialize(a) for a in seq]
+        return len(items).to_bytes(4, "little") + b"".join(len(i).to_bytes(4, "little") + i for i in items)
 
     @staticmethod
     def _arg_serialize(arg: ArgType | Annotation) -> bytes:
-        """Serialize one argument."""
+        """Serialize one argument. The first byte says what kind of argument it is: the string "\x0f" is not None,
+        "\x0f\x00" is not 15, eight characters are not a float."""
 
         if isinstance(arg, Base):
-            return arg._hash.to_bytes(8, "little", signed=False)
+            return b"A" + arg._hash.to_bytes(8, "little", signed=False)
         if arg is None:
-            return b"\x0f"
+            return b"N"
         if arg is True:
-            return b"\x1f"
+            return b"T"
         if arg is False:
-            return b"\x2e"
+            return b"F"
         if isinstance(arg, int):
-            return arg.to_bytes((arg.bit_length() + 15) // 8, "little", signed=True)
+            return b"i" + arg.to_bytes((arg.bit_length() + 15) // 8, "little", signed=True)
         if isinstance(arg, str):
-            return arg.encode()
+            return b"s" + arg.encode()
         if isinstance(arg, float):
             if math.isnan(arg):
-                return b"nan"
+                return b"fnan"
             if math.isinf(arg):
-                return b"inf" if arg > 0 else b"-inf"
+                return b"finf" if arg > 0 else b"f-inf"
             if arg == 0.0 and math.copysign(1, arg) < 0:
-                return b"-0.0"
-            return struct.pack("d", arg)
+                return b"f-0.0"
+            return b"f" + struct.pack("d", arg)
         if isinstance(arg, tuple):
-            return b"".join(b"<" + Base._arg_serialize(a) + b">" for a in arg)
+            return b"t" + Base._seq_serialize(arg)
         if isinstance(arg, claripy.annotation.Annotation) and type(arg).__hash__ is not object.__hash__:
             # Python's hash() collides for different contents (hash(-1) == hash(-2), hash(2**61 - 1) == hash(0)), which
             # would merge ASTs that differ only in annotation contents: serialize the contents instead
             try:
                 return (
                     b"["
-                    + type(arg).__qualname__.encode()
-                    + b"".join(
-                        b"<" + k.encode() + b"=" + Base._arg_serialize(v) + b">" for k, v in sorted(vars(arg).items())
-                    )
+                    + Base._seq_serialize((type(arg).__qualname__,))
+                    + b"".join(Base._seq_serialize((k, v)) for k, v in sorted(vars(arg).items()))
                     + b"]"
                 )
             except TypeError:
                 pass
         if hasattr(arg, "__hash__"):
-            return hash(arg).to_bytes(8, "little", signed=True)
+            return b"h" + hash(arg).to_bytes(8, "little", signed=True)
 
         log.debug("Don't know how to serialize %s, consider implementing __hash__", arg)
-        return pickle.dumps(arg)
+        return b"p" + pickle.dumps(arg)
 
     def __hash__(self) -> int:
         return self._hash
